@@ -7,21 +7,12 @@ use std::io::{self, BufRead, Write};
 use std::panic::{self, AssertUnwindSafe};
 
 mod amt;
+mod drv;
+use drv::*;
 use amt::*;
 
 include!(concat!(env!("QH_GEN_DIR"), "/gen.rs"));
 
-fn cps(s: &str) -> String {
-    // string as code points
-    let v: Vec<String> = s.chars().map(|c| (c as u32).to_string()).collect();
-    format!("\"{}\"", v.join(" "))
-}
-
-fn uncps(s: &str) -> String {
-    // inverse of cps for an argument written as  "1 2 3"  or  ""  (quotes, no spaces inside tokens)
-    let t = s.trim_matches('"');
-    t.split('_').filter(|x| !x.is_empty()).map(|x| char::from_u32(x.parse::<u32>().unwrap()).unwrap()).collect()
-}
 
 fn prefix_str(p: Option<SIPrefix>) -> String {
     match p {
@@ -34,7 +25,7 @@ fn do_prefix(args: &[&str]) -> String {
     match args[0] {
         "iter" => SIPrefix::iter().map(|p| format!("{:?}", p)).collect::<Vec<_>>().join(" "),
         "table" => SIPrefix::iter()
-            .map(|p| format!("{:?}|{}|{}|{}", p, cps(p.name()), cps(p.abbr()), p.exp()))
+            .map(|p| format!("{:?}|Some {}|Some {}|{}", p, cps(p.name()), cps(p.abbr()), p.exp()))
             .collect::<Vec<_>>()
             .join(" ; "),
         "from_exp" => {
